@@ -171,7 +171,7 @@ fn c18_static<T: HLabel>(ctx: &mut Ctx, case: &StaticCase, built: &Built<T>, rng
                 // fine-grained checks on connected frameworks
                 if connected && matches!(t.ty, SolverType::Preferred | SolverType::Ideal | SolverType::SemiStable | SolverType::Stage) {
                     let with_range = matches!(t.ty, SolverType::SemiStable | SolverType::Stage);
-                    let (argvars, rangevars) = var_blocks::<T>(enc, case.abs.n, with_range);
+                    let (argvars, rangevars) = var_blocks::<T>(enc.resolved(t.ty), case.abs.n, with_range);
                     // group satisfiable calls by (instance, selector variable)
                     let mut groups: BTreeMap<(usize, usize), Vec<&crate::monitor::CallRecord>> = BTreeMap::new();
                     for c in s.calls.iter() {
